@@ -71,11 +71,11 @@ UnaryOf(f) ==
       [] f = "subif" -> {"sub?", "sub!", "fmt1", "cap"}
       [] f = "closure" -> {"star", "plus", "opt", "cap"}
       [] f = "names" ->
-           {"letA", "letAB", "scopeA", "capA", "subA", "bapply", "letF", "star"}
+           {"letA", "letAB", "scopeA", "capA", "subA", "bapply", "letF", "star", "opt"}
       [] f = "fmt" -> {"fmt1", "fmt2", "fmts", "cap", "opt"}
       [] f = "blocks" -> {"bapply", "letFcall"}
       [] f = "upvals" -> {"bapply", "bapplyX", "bapplyY"}
-      [] f = "scopes" -> {"letA", "letB", "scopeA", "subA", "capA", "sub?", "fmt1"}
+      [] f = "scopes" -> {"letA", "letB", "scopeA", "subA", "capA", "sub?", "fmt1", "opt"}
       [] f = "refeed" -> {"let1", "fmt1", "opt", "star", "sub?"}
       [] f = "cmp" -> {"sub?", "sub!", "cap"}
       [] f = "shadow" -> {"bapply", "scopeL", "letL", "letFcall"}
